@@ -246,7 +246,7 @@ Qed.
 
 (* what the arguments of a repaired call consist of, when fix and update are approved and the call held no user-controlled part *)
 Lemma call_result_members : forall asg F c pos kws fs a r, f_fix F = true -> f_update F = true ->
-  (forall k t, In (k, t) kws -> is_unm t = false) ->
+  (forall k t, In (k, t) kws -> has_unm t = false) ->
   In (a, r) (call_result ct asg F c pos kws fs) ->
   exists k v, a = Some k /\ In (k, v) fs /\ is_default ct c k v = false /\ ((exists t, In (k, t) kws /\ r = asg t v) \/ r = QGen v).
 Proof.
@@ -289,7 +289,7 @@ Lemma cassign_el_keys : forall asg F c fs e x, In x (cassign_el ct asg F c fs e)
 Proof.
   intros asg F c fs [t|[k t]] x Hin; cbn [cassign_el] in Hin.
   - unfold cassign_pos in Hin. destruct (f_fix F); [destruct Hin|]. destruct Hin as [<-|[]]. reflexivity.
-  - unfold cassign_kw in Hin. destruct (alookup k fs) as [v|]; [destruct (is_default ct c k v); [destruct (is_unm t); [|destruct (val_eqb (eval ct t) v); [destruct (f_update F)|destruct (f_fix F)]]|]|destruct (f_fix F)];
+  - unfold cassign_kw in Hin. destruct (alookup k fs) as [v|]; [destruct (is_default ct c k v); [destruct (has_unm t); [|destruct (val_eqb (eval ct t) v); [destruct (f_update F)|destruct (f_fix F)]]|]|destruct (f_fix F)];
       cbn in Hin; try tauto; destruct Hin as [<-|[]]; reflexivity.
 Qed.
 Lemma call_result_kw_nodup : forall asg F c pos kws fs, f_fix F = true -> NoDup (map fst kws) -> NoDup (map fst fs) ->
@@ -308,7 +308,7 @@ Proof.
     rewrite E1. cbn [app]. clear -Hnk. induction kws as [|[k t] r IH]; [constructor|]. cbn [map fst] in Hnk. inversion Hnk as [|? ? Hni Hnk']; subst.
     cbn [map flat_map]. rewrite kwvals_app, map_app. apply NoDup_app_intro; [|exact (IH Hnk')|].
     + assert (L : length (cassign_el ct asg F c fs (inr (k, t))) <= 1).
-      { cbn [cassign_el]. unfold cassign_kw. destruct (alookup k fs) as [v|]; [destruct (is_default ct c k v); [destruct (is_unm t); [|destruct (val_eqb (eval ct t) v); [destruct (f_update F)|destruct (f_fix F)]]|]|destruct (f_fix F)]; cbn [length]; lia. }
+      { cbn [cassign_el]. unfold cassign_kw. destruct (alookup k fs) as [v|]; [destruct (is_default ct c k v); [destruct (has_unm t); [|destruct (val_eqb (eval ct t) v); [destruct (f_update F)|destruct (f_fix F)]]|]|destruct (f_fix F)]; cbn [length]; lia. }
       destruct (cassign_el ct asg F c fs (inr (k, t))) as [|[[k0|] r0] [|y q]]; cbn [length] in L; try lia; unfold kwvals_gen; cbn; repeat constructor; intros [].
     + intros x Hx Hy. apply in_map_iff in Hx. destruct Hx as [[k1 w1] [E Hx]]. cbn [fst] in E. subst k1. apply (in_kwvals ev_t) in Hx. destruct Hx as [r1 [Hx _]].
       apply cassign_el_keys in Hx. cbn [fst] in Hx. injection Hx as ->.
@@ -340,7 +340,7 @@ Proof.
 Qed.
 
 Lemma call_settles : forall asg F c pos kws fs, f_fix F = true -> f_update F = true -> NoDup (map fst kws) -> map fst fs = map fst (ct c) ->
-  okv_entries ct fs = true -> (forall k t, In (k, t) kws -> is_unm t = false) ->
+  okv_entries ct fs = true -> (forall k t, In (k, t) kws -> has_unm t = false) ->
   (forall k t v, In (k, t) kws -> In (k, v) fs -> settled (to_tree (asg t v)) v) ->
   settled (to_tree (QCall c (call_result ct asg F c pos kws fs))) (NObj c fs).
 Proof.
@@ -396,7 +396,7 @@ Proof.
     apply Z.eqb_eq in Ec. subst c'. rewrite okt_call in Ho. apply andb_true_iff in Ho. destruct Ho as [Ho Ho3]. apply andb_true_iff in Ho. destruct Ho as [Ho1 Ho2].
     apply nodupb_NoDup in Ho2. rewrite okv_obj in Hn. apply andb_true_iff in Hn. destruct Hn as [Hn1 Hn2]. apply zlist_eqb_eq in Hn1.
     apply call_settles; [exact HF|exact HU|exact Ho2|exact Hn1|exact Hn2| |].
-    + intros k t Hkt. apply okt_not_unm. exact (okt_entries_in _ _ _ Ho3 Hkt).
+    + intros k t Hkt. apply okt_no_unm. exact (okt_entries_in _ _ _ Ho3 Hkt).
     + intros k t v Hkt Hkv. apply IH; [eapply depth_call_kw; [exact Hd|exact Hkt]|exact (okt_entries_in _ _ _ Ho3 Hkt)|exact (okv_entries_in ct _ _ _ Hn2 Hkv)|exact HF|exact HU].
 Qed.
 
